@@ -109,3 +109,38 @@ func Verif_C18_pool() {
 	}
 	verifReach("done")
 }
+
+// H18b2: a Get at the limit. With `limit` resources held and none idle, a
+// further Get (a real goroutine) must wait; a Put hands exactly that resource
+// to the waiter; no extra resource is ever created.
+func Verif_C18_pool_blocking() {
+	limit := verifCase(verifParam("maxLimit")) + 1
+	creates, destroys := 0, 0
+	p := NewPool(limit, func() any { creates++; return creates }, func(any) { destroys++ })
+	verifClock = 1
+	var held []any
+	for i := 0; i < limit; i++ {
+		x := p.Get()
+		for _, h := range held {
+			verifAssert(h != x, "no resource is handed to two holders")
+		}
+		held = append(held, x)
+	}
+	verifAssert(creates == limit, "resources are created up to the limit")
+	var got any
+	done := false
+	go func() {
+		got = p.Get()
+		done = true
+	}()
+	verifYield()
+	verifAssert(!done, "Get waits while the limit of resources is in use")
+	verifAssert(creates == limit, "never more resources than the limit are created")
+	k := verifChoose("which", limit)
+	p.Put(held[k])
+	verifYield()
+	verifAssert(done, "Put wakes the waiting Get")
+	verifAssert(got == held[k], "the waiter receives the resource that was put back")
+	verifAssert(creates == limit && destroys == 0, "no resource is created or destroyed on the way")
+	verifReach("handed-over")
+}
